@@ -330,6 +330,28 @@ pub fn main(ctx: &Ctx) -> i32 {
             }
         }
     }
+    // ---- ServiceInfo: every member drawn from the awkward-string pool (empty strings included),
+    // every member present in the serialised object (none of them is optional)
+    {
+        let pool = ["", "x", "ü\"\\", " ", "http://u/?a=b&c", "null", "0"];
+        for (vi, v) in pool.iter().enumerate() {
+            for field in 0..5usize {
+                let pick = |f: usize| if f == field { v.to_string() } else { pool[(vi + f + 1) % pool.len()].to_string() };
+                let si = ServiceInfo { vendor: pick(0).into(), product: pick(1).into(), version: pick(2).into(), url: pick(3).into(), interfaces: if field == 4 { vec![v.to_string().into()] } else { vec![] } };
+                ctx.case(Some(hash_of(&("ServiceInfoFields", vi, field))));
+                match round_trip(&si) {
+                    Err(e) => fail(ctx, "c17:serviceinfo-round-trip", "ServiceInfo", format!("{:?}", si), e),
+                    Ok(val) => {
+                        for k in ["vendor", "product", "version", "url", "interfaces"] {
+                            if val.get(k).is_none() {
+                                fail(ctx, "c17:serviceinfo-member-missing", "ServiceInfo", format!("{:?}", si), format!("member {} is missing from {}", k, val));
+                            }
+                        }
+                    }
+                }
+            }
+        }
+    }
     // ---- ServiceInfo & description types
     for n in 0..6 {
         for s in [KEYS[n], KEYS[n + 6], KEYS[n + 12]] {
